@@ -451,7 +451,8 @@ M("C11", "charge-setter-rounds", "iodata/iodata.py", r"            self\.nelec =
 M("C12", "occsa-setter-keeps-callers-array", "iodata/orbitals.py", r"            occsa = np\.array\(occsa\)", "            occsa = np.asarray(occsa)", "C12-R4")
 T("C12", "occsa-setter-copies-explicitly", "iodata/orbitals.py", r"            occsa = np\.array\(occsa\)", "            occsa = np.asarray(occsa).copy()")
 M("C13", "pdb-conect-membership-guard", F + "pdb.py", r"                bonds\.append\(\[serials\[serial0\], serials\[serial1\], bond2num\[\"un\"\]\]\)", "                if serial0 in serials and serial1 in serials:\n                    bonds.append([serials[serial0], serials[serial1], bond2num[\"un\"]])", "C13-R12")
-T("C13", "pdb-conect-guard-that-raises", F + "pdb.py", r"                bonds\.append\(\[serials\[serial0\], serials\[serial1\], bond2num\[\"un\"\]\]\)", "                if serial0 in serials and serial1 in serials:\n                    bonds.append([serials[serial0], serials[serial1], bond2num[\"un\"]])\n                else:\n                    raise LoadError(\"CONECT record refers to an unknown atom.\", lit)")
+# a LoadError raised inside the record loop is taken by pdb.load_many for the end of the sequence: not a twin
+M("C13", "pdb-conect-complaint-swallowed-by-load-many", F + "pdb.py", r"                bonds\.append\(\[serials\[serial0\], serials\[serial1\], bond2num\[\"un\"\]\]\)", "                if serial0 in serials and serial1 in serials:\n                    bonds.append([serials[serial0], serials[serial1], bond2num[\"un\"]])\n                else:\n                    raise LoadError(\"CONECT record refers to an unknown atom.\", lit)", "C13-R3")
 M("C07", "cube-reads-raw-handle", F + "cube.py", r"            words = next\(lit\)\.split\(\)", "            words = lit.fh.readline().split()", "C07-R11")
 M("C07", "select-by-name-without-feature-test", "iodata/api.py", r"            if any\(fnmatch\(basename, pattern\) for pattern in format_module\.PATTERNS\) and hasattr\(\n                format_module, attrname\n            \):", "            if any(fnmatch(basename, pattern) for pattern in format_module.PATTERNS):", "C07-R12")
 T("C07", "select-explicit-format-early-returns", "iodata/api.py", r"    if fmt in FORMAT_MODULES:\n        format_module = FORMAT_MODULES\[fmt\]\n        if not hasattr\(format_module, attrname\):\n            raise FileFormatError\(f\"Format \{fmt\} does not support feature \{attrname\}\", filename\)\n        return format_module\n    raise FileFormatError\(f\"Unknown file format \{fmt\}\", filename\)", "    if fmt not in FORMAT_MODULES:\n        raise FileFormatError(f\"Unknown file format {fmt}\", filename)\n    format_module = FORMAT_MODULES[fmt]\n    if not hasattr(format_module, attrname):\n        raise FileFormatError(f\"Format {fmt} does not support feature {attrname}\", filename)\n    return format_module")
@@ -500,6 +501,8 @@ M("C02", "fchk-spin-density-under-total-label", F + "fchk.py", r"            tit
 T("C02", "fchk-charges-written-from-an-ordered-table", F + "fchk.py", r"    if \"mulliken\" in data\.atcharges:\n        _dump_real_arrays\(\"Mulliken Charges\", data\.atcharges\[\"mulliken\"\], f\)\n    if \"esp\" in data\.atcharges:\n        _dump_real_arrays\(\"ESP Charges\", data\.atcharges\[\"esp\"\], f\)\n", "    for key_, label_ in ((\"mulliken\", \"Mulliken Charges\"), (\"esp\", \"ESP Charges\")):\n        if key_ in data.atcharges:\n            _dump_real_arrays(label_, data.atcharges[key_], f)\n")
 
 T("C13", "gro-frame-parser-shared-by-load-one-and-load-many", F + "gromacs.py", r"def load_one\(lit: LineIterator\) -> dict:\n    \"\"\"Do not edit this docstring\. It will be overwritten\.\"\"\"\n    data = _helper_read_frame\(lit\)", "def load_one(lit: LineIterator) -> dict:\n    \"\"\"Do not edit this docstring. It will be overwritten.\"\"\"\n    return _load_frame(lit)\n\n\ndef _load_frame(lit: LineIterator) -> dict:\n    \"\"\"Read one frame.\"\"\"\n    data = _helper_read_frame(lit)", also=[(r"        yield load_one\(lit\)", "        yield _load_frame(lit)")])
+
+M("C13", "mol2-header-complaint-swallowed-as-end", F + "mol2.py", r"                natoms = int\(words\[0\]\)\n", "                natoms = int(words[0])\n                if natoms <= 0:\n                    raise LoadError(\"A molecule needs at least one atom.\", lit)\n", "C13-R3")
 
 
 def _run_one(args):
